@@ -403,7 +403,58 @@ def rule_pss_only(ctx):
                  "must check it")])
 
 
+def rule_defaults(ctx):
+    """DEFAULTS: callers that rely on a default get the strict one.  The TLS 1.3 code calls
+    ECDHKeyExchange.calc_shared_key without naming the admissible point formats; RFC 8446 4.2.8.2 admits
+    only the uncompressed form, so the default must be exactly ('uncompressed',) - None means "anything
+    the decoder understands".  And RSASSA-PSS encodes / verifies with emBits = modBits - 1 (RFC 8017 8.1),
+    the exact bit length, not bytes * 8."""
+    from ..condeval import ev, Unknown
+    from .common import size_primitives
+    R = "C10.DEFAULTS"
+    fi = ctx.index.func("keyexchange:ECDHKeyExchange.calc_shared_key")
+    names = [a.arg for a in fi.node.args.args]
+    dfl = fi.node.args.defaults
+    ok, got = False, "no default"
+    if "valid_point_formats" in names:
+        k = names.index("valid_point_formats") - (len(names) - len(dfl))
+        if 0 <= k < len(dfl):
+            try:
+                got = ev(dfl[k], {})
+                ok = tuple(got) == ("uncompressed",) if got is not None else False
+            except (Unknown, TypeError):
+                got = norm(dfl[k])
+    ctx.check(R, ok, fi.qname, "default of valid_point_formats",
+              "calc_shared_key's default for valid_point_formats is %r; the TLS 1.3 callers pass nothing and must get "
+              "('uncompressed',) - any other default makes them accept compressed / hybrid key shares" % (got,), fi.loc())
+    prims = size_primitives(ctx)
+    n = 0
+    for f2 in ctx.index.all_functions():
+        if f2.module.name != "utils.rsakey":
+            continue
+        for c in calls_in(f2.node):
+            if call_name(c) in ("EMSA_PSS_encode", "EMSA_PSS_verify") and len(c.args) >= 3:
+                # the emBits argument: (mHash, emBits, ..) for encode, (mHash, EM, emBits, ..) for verify
+                arg = c.args[1] if call_name(c) == "EMSA_PSS_encode" else c.args[2]
+                n += 1
+                bad = None
+                for bits in (2047, 2048, 2049, 1023):
+                    N = (1 << (bits - 1)) | 1
+                    try:
+                        v = ev(arg, {"self.n": N, "__calls__": prims, "__index__": ctx.index, "__fn__": f2.node})
+                    except (Unknown, TypeError, AttributeError) as e:
+                        raise AnalysisError("%s: cannot evaluate emBits `%s` in %s: %s" % (R, norm(arg), f2.qname, e))
+                    if v != bits - 1:
+                        bad = "for a %d-bit modulus emBits is %r, must be %d" % (bits, v, bits - 1)
+                        break
+                ctx.check(R, bad is None, f2.qname, c, "RSASSA-PSS emBits `%s`: %s" % (norm(arg), bad), f2.loc(c),
+                          what="%s: emBits = modBits - 1" % f2.short)
+    if n < 2:
+        raise AnalysisError("%s: only %d EMSA-PSS calls found" % (R, n))
+
+
 RULES = [
+    ("C10.DEFAULTS", "quick", rule_defaults),
     ("C10.PSS-ONLY", "quick", rule_pss_only),
     ("C10.DER-REST", "quick", rule_der_rest),
     ("C10.NEG-VERSION", "quick", rule_negotiated_version),
